@@ -9,6 +9,7 @@ FD = 'finite_difference.py'
 SG = 'step_generators.py'
 CORE = 'core.py'
 EXT = 'extrapolation.py'
+LIM = 'limits.py'
 
 MUTANTS = [
     # ------------------------------------------------------------------ C09: rule cache
@@ -210,6 +211,18 @@ MUTANTS = [
          needs='at least 7 terms: the returned entry has the wrong parity from the 7th term on',
          edits=[("            estlim = epstab[n % 2]\n",
                  "            estlim = epstab[n % 2] if n < 6 else epstab[(n + 1) % 2]\n")]),
+    dict(id='c09_limit_singular_mask_cached_by_shape', prop='C09', file=LIM, expect='caught',
+         needs='the same Limit object called at two same-shape points whose singular positions differ',
+         edits=[("        k = np.flatnonzero(np.isnan(f_z))\n",
+                 "        if getattr(self, '_sing', None) is None or self._sing[0] != z.shape:\n"
+                 "            self._sing = (z.shape, np.flatnonzero(np.isnan(f_z)))\n"
+                 "        k = self._sing[1]\n")]),
+    dict(id='c09_limit_rule_built_once', prop='C09', file=LIM, expect='caught',
+         needs='a Limit evaluated, its order changed, evaluated again: the extrapolation rule of the first evaluation is kept',
+         edits=[("        self._set_richardson_rule(self.step.step_ratio, self.order + 1)\n",
+                 "        if getattr(self, '_rule_for', None) is None:\n"
+                 "            self._set_richardson_rule(self.step.step_ratio, self.order + 1)\n"
+                 "            self._rule_for = self.order\n")]),
     dict(id='c14_epsalg_window_161', prop='C14', file=EXT, expect='caught',
          needs='more than 161 terms fed to one EpsAlg: only the last 161 are kept, wrong entry from the 163rd term on',
          edits=[("        epstab = self.epstab\n        n = len(epstab)\n        epstab.append(s_n)\n",
